@@ -687,6 +687,8 @@ type dagInfo struct {
 	HeadLifted  bool
 	TailLifted  bool
 	Vectorize   bool
+	// CutDropsMergeKey: a cut inside the legs does not keep the field the legs are merged on afterwards
+	CutDropsMergeKey bool
 }
 
 func (d dagInfo) shape() string {
@@ -736,10 +738,14 @@ func inspectDAG(entry any) (dagInfo, string) {
 		case "Scatter":
 			paths, _ := op["paths"].([]any)
 			info.Legs = len(paths)
+			mergePath := "?"
 			if i+1 < len(ops) {
 				switch ops[i+1]["kind"] {
 				case "Merge":
 					info.Merge = true
+					if ex, _ := ops[i+1]["expr"].(map[string]any); ex != nil && ex["kind"] == "This" {
+						mergePath = pathText(ex["path"])
+					}
 				case "Combine":
 					info.Combine = true
 				}
@@ -755,6 +761,21 @@ func inspectDAG(entry any) (dagInfo, string) {
 						}
 					case "Sort":
 						info.SortLifted = true
+					case "Cut":
+						if info.Merge {
+							kept := false
+							args, _ := m["args"].([]any)
+							for _, a := range args {
+								am, _ := a.(map[string]any)
+								lhs, _ := am["lhs"].(map[string]any)
+								if lhs != nil && lhs["kind"] == "This" && pathText(lhs["path"]) == mergePath {
+									kept = true
+								}
+							}
+							if !kept {
+								info.CutDropsMergeKey = true
+							}
+						}
 					case "Head":
 						info.HeadLifted = true
 					case "Tail":
@@ -765,6 +786,15 @@ func inspectDAG(entry any) (dagInfo, string) {
 		}
 	}
 	return info, string(b)
+}
+
+func pathText(p any) string {
+	l, _ := p.([]any)
+	var parts []string
+	for _, x := range l {
+		parts = append(parts, fmt.Sprint(x))
+	}
+	return strings.Join(parts, ".")
 }
 
 func pullAll(p zbuf.Puller) ([]zed.Value, error) {
@@ -935,6 +965,7 @@ func (e *env) compare(c Case, ref, got []zed.Value) string {
 }
 
 const sigSortNulls = "C08/sort-lifted/merge-nulls-position"
+const sigCutKey = "C08/cut-lifted/drops-merge-key"
 
 func errClass(err error) string {
 	s := err.Error()
@@ -1037,6 +1068,7 @@ func runCase(c Case) *vt.Outcome {
 		return o
 	}
 	knownSeen := map[string]bool{}
+	cutDrops := map[int]bool{} // per parallelism (learned from the explicit run, which comes first)
 	exact, tied := 0, 0
 	for i, par := range c.Pars {
 		{
@@ -1057,6 +1089,11 @@ func runCase(c Case) *vt.Outcome {
 			}
 			got = normCollect(e.zctx, got, c.Collect)
 			if explicit {
+				if info.CutDropsMergeKey {
+					cutDrops[par] = true
+					cutDrops[0] = true
+					o.Label("dag:cut-drops-merge-key")
+				}
 				if info.Legs >= 2 {
 					o.Label("dag:scatter", "dag:"+info.shape())
 					if info.Merge {
@@ -1109,6 +1146,16 @@ func runCase(c Case) *vt.Outcome {
 						return o
 					}
 				}
+			}
+			// known: analyzeCuts believes that a cut which does not mention the merge key keeps it, so the cut is
+			// lifted in front of the merge, which then compares missing keys
+			if cutDrops[par] {
+				if vt.IsKnown(sigCutKey) {
+					knownSeen[sigCutKey] = true
+					continue
+				}
+				o.Fail = fail(sigCutKey, "%q at parallelism %d: %s\ndag=%s", c.Prog, par, d, dagText)
+				return o
 			}
 			sig := "C08/differs/" + c.Class
 			if explicit {
